@@ -293,6 +293,31 @@ fn run_reuse(ws: &[Workload], ks: &[u64], last_budget_delta: Option<i64>, r: &mu
         }
         let n = ws.len();
         for (i, w) in ws.iter().enumerate() {
+            // between rounds (chosen from the round's cancellation position): a recursion beyond the default call-stack
+            // limit must fail with the stack-overflow error, leave the call stack empty, and a legal recursion must work
+            if ks.get(i).map(|k| k % 3 == 0).unwrap_or(false) {
+                threshold.set(None);
+                flag.set(false);
+                let deep = "def _rec(n):\n    return 0 if n == 0 else 1 + _rec(n - 1)\n_too_deep = _rec(100)\n";
+                let res = eval.eval_module(sl::parse("deep.star", deep, &sl::dialect_all()).unwrap(), sl::globals());
+                r.evals += 1;
+                match res {
+                    Ok(_) => r.fail("depth-limit-not-enforced", format!("round {i} on a reused evaluator: recursion depth 100 succeeded under the default limit")),
+                    Err(e) => {
+                        if !matches!(e.kind(), starlark::ErrorKind::StackOverflow(_)) {
+                            r.fail("depth-limit-wrong-error", format!("round {i} on a reused evaluator: expected the stack-overflow error, got {}", e.without_diagnostic()));
+                        }
+                    }
+                }
+                if eval.call_stack_count() != 0 {
+                    r.fail("not-reusable", format!("round {i}: call stack not empty after the stack-overflow error"));
+                }
+                let ok = eval.eval_module(sl::parse("shallow.star", "_fine = _rec(20)\n", &sl::dialect_all()).unwrap(), sl::globals());
+                r.evals += 1;
+                if let Err(e) = ok {
+                    r.fail("not-reusable", format!("round {i}: after a stack-overflow error a recursion of depth 20 fails: {}", e.without_diagnostic()));
+                }
+            }
             let src = format!("{}{}", w.src_defs, w.body);
             let ast = match sl::parse(&format!("round{i}.star"), &src, &sl::dialect_all()) {
                 Ok(a) => a,
